@@ -1413,6 +1413,9 @@ class WCS(GWCSAPIMixin):
             bb = self.bounding_box
         else:
             bb = bounding_box
+            if np.ndim(bb) == 1:
+                # the box of a single pixel axis given as (start, stop)
+                bb = (tuple(bb),)
 
         all_spatial = all([t.lower() == "spatial" for t in self.output_frame.axes_type])
 
@@ -1433,7 +1436,9 @@ class WCS(GWCSAPIMixin):
         if axis_type != "all":
             # a WCS with a single output axis returns a 1-D array of values
             result = np.atleast_2d(result)
-            axtyp_ind = np.array([t.lower() for t in self.output_frame.axes_type]) == axis_type
+            # a TemporalFrame calls its axis type 'TIME'
+            wanted = ('temporal', 'time') if axis_type in ('temporal', 'time') else (axis_type,)
+            axtyp_ind = np.array([t.lower() in wanted for t in self.output_frame.axes_type])
             if not axtyp_ind.any():
                 raise ValueError('This WCS does not have axis of type "{}".'.format(axis_type))
             result = np.asarray([(r.min(), r.max()) for r in result[axtyp_ind]])
